@@ -559,7 +559,7 @@ where
         match self.store.map.entry(item) {
             Occupied(mut e) => {
                 oldp = Some(replace(e.get_mut(), priority));
-                pos = unsafe { *self.store.qp.get_unchecked(e.index()) };
+                pos = self.store.qp[e.index()];
             }
             Vacant(e) => {
                 e.insert(priority);
